@@ -562,3 +562,425 @@ theorem wb_activeEntries_length (pm : PM) (rel : Nat) : (activeEntries pm rel).l
   exact wb_sum_filter_le (fun x => x.2.length) _ pm
 
 end Muscle.Reflector
+
+/-! ## the whole traversal, instrumented with the number of pattern-entry tests
+
+`…C` = the function of Traverse.lean returning (result, number of entries examined by the entry loops of `CheckChildForTraversal`);
+the recursive call carries its own count (`RecC`).  `wb_…_fst`: the first component is the real function (run with the projected
+recursive call); `wb_…_cost`: the count. -/
+
+namespace Muscle.Reflector
+open Muscle
+
+abbrev RecC := Node → Visit → Nat → (List Visit × Int) × Nat
+def projR (recC : RecC) : Rec := fun k n d => (recC k n d).1
+
+/-- the condition under which one step of the entry loop (`stepG`) makes the recursive call -/
+def descends (ctx : TCtx) (depth : Nat) (hit : Bool) (e : Entry) (st : CState) : Bool :=
+  hit && !decide (depth + 1 = ctx.rootDepth + e.clauses.length) && !st.recursed
+
+theorem wb_stepG_keep (ctx : TCtx) (rec : Rec) (child : Node) (cn : Visit) (depth : Nat) (hit : Bool) (e : Entry) (st : CState)
+    (h : st.recursed = true ∨ st.abort.isSome = true) :
+    (stepG ctx rec child cn depth hit e st).recursed = true ∨ (stepG ctx rec child cn depth hit e st).abort.isSome = true := by
+  rcases h with h | h
+  · unfold stepG
+    simp only []
+    repeat' split
+    all_goals first
+      | exact Or.inl h
+      | exact Or.inr rfl
+      | exact Or.inl rfl
+      | (left; simp [h])
+  · unfold stepG
+    simp only []
+    repeat' split
+    all_goals first
+      | exact Or.inr h
+      | exact Or.inr rfl
+
+theorem wb_stepG_desc (ctx : TCtx) (rec : Rec) (child : Node) (cn : Visit) (depth : Nat) (hit : Bool) (e : Entry) (st : CState)
+    (h : descends ctx depth hit e st = true) :
+    (stepG ctx rec child cn depth hit e st).recursed = true ∨ (stepG ctx rec child cn depth hit e st).abort.isSome = true := by
+  simp only [descends, Bool.and_eq_true, Bool.not_eq_true', decide_eq_false_iff_not] at h
+  obtain ⟨⟨h1, h2⟩, h3⟩ := h
+  unfold stepG
+  simp only []
+  repeat' split
+  all_goals first
+    | exact Or.inr rfl
+    | exact Or.inl rfl
+    | (exfalso; simp_all)
+
+def checkEntriesC (ctx : TCtx) (recC : RecC) (child : Node) (cn : Visit) (depth : Nat) (known : Option Nat) :
+    List Entry → Nat → CState → CState × Nat
+  | [], _, st => (st, 0)
+  | e :: es, idx, st =>
+    if st.done || st.abort.isSome then (st, 0) else
+    let r := checkEntriesC ctx recC child cn depth known es (idx + 1)
+      (stepG ctx (projR recC) child cn depth (decide (known = some idx) || hitB (depth - ctx.rootDepth) child.name e) e st)
+    -- one entry examined, plus the tests of the recursive call when this step descends
+    (r.1, r.2 + 1 + (if descends ctx depth (decide (known = some idx) || hitB (depth - ctx.rootDepth) child.name e) e st = true
+                     then (recC child cn (depth + 1)).2 else 0))
+
+theorem wb_checkEntriesC_fst (ctx : TCtx) (recC : RecC) (child : Node) (cn : Visit) (depth : Nat) (known : Option Nat) :
+    ∀ (es : List Entry) (idx : Nat) (st : CState),
+      (checkEntriesC ctx recC child cn depth known es idx st).1 = checkEntries ctx (projR recC) child cn depth known es idx st := by
+  intro es
+  induction es with
+  | nil => intro idx st; rfl
+  | cons e es ih =>
+    intro idx st
+    rw [checkEntries_cons]
+    simp only [checkEntriesC]
+    split
+    · rfl
+    · exact ih _ _
+
+theorem wb_checkEntriesC_cost (ctx : TCtx) (recC : RecC) (child : Node) (cn : Visit) (depth : Nat) (known : Option Nat) (C : Nat)
+    (hC : (recC child cn (depth + 1)).2 ≤ C) :
+    ∀ (es : List Entry) (idx : Nat) (st : CState),
+      ((st.recursed = true ∨ st.abort.isSome = true) → (checkEntriesC ctx recC child cn depth known es idx st).2 ≤ es.length) ∧
+      (checkEntriesC ctx recC child cn depth known es idx st).2 ≤ es.length + C := by
+  intro es
+  induction es with
+  | nil => intro idx st; exact ⟨fun _ => Nat.le_refl _, Nat.zero_le _⟩
+  | cons e es ih =>
+    intro idx st
+    simp only [checkEntriesC]
+    split
+    · exact ⟨fun _ => Nat.zero_le _, Nat.zero_le _⟩
+    · rename_i hgo
+      have hab : st.abort.isSome = false := by
+        cases hx : st.abort.isSome with
+        | false => rfl
+        | true => simp [hx] at hgo
+      obtain ⟨i1, i2⟩ := ih (idx + 1)
+        (stepG ctx (projR recC) child cn depth (decide (known = some idx) || hitB (depth - ctx.rootDepth) child.name e) e st)
+      simp only [List.length_cons]
+      by_cases hd : descends ctx depth (decide (known = some idx) || hitB (depth - ctx.rootDepth) child.name e) e st = true
+      · rw [if_pos hd]
+        have hr := i1 (wb_stepG_desc ctx (projR recC) child cn depth _ e st hd)
+        have hnr : st.recursed = false := by
+          simp only [descends, Bool.and_eq_true, Bool.not_eq_true'] at hd
+          exact hd.2
+        refine ⟨fun h => ?_, by omega⟩
+        rcases h with h | h
+        · rw [hnr] at h; cases h
+        · rw [hab] at h; cases h
+      · rw [if_neg hd]
+        refine ⟨fun h => ?_, by omega⟩
+        have := i1 (wb_stepG_keep ctx (projR recC) child cn depth _ e st h)
+        omega
+
+def checkChildC (ctx : TCtx) (recC : RecC) (child : Node) (names : Visit) (depth : Nat) (known : Option Nat) :
+    (List Visit × Option Int) × Nat :=
+  ((( checkEntriesC ctx recC child (names ++ [child.name]) depth known (activeEntries ctx.pm (depth - ctx.rootDepth)) 0 {}).1.visits,
+    (checkEntriesC ctx recC child (names ++ [child.name]) depth known (activeEntries ctx.pm (depth - ctx.rootDepth)) 0 {}).1.abort),
+   (checkEntriesC ctx recC child (names ++ [child.name]) depth known (activeEntries ctx.pm (depth - ctx.rootDepth)) 0 {}).2)
+
+theorem wb_checkChildC_fst (ctx : TCtx) (recC : RecC) (child : Node) (names : Visit) (depth : Nat) (known : Option Nat) :
+    (checkChildC ctx recC child names depth known).1 = checkChild ctx (projR recC) child names depth known := by
+  unfold checkChildC checkChild
+  simp only [wb_checkEntriesC_fst]
+
+theorem wb_checkChildC_cost (ctx : TCtx) (recC : RecC) (child : Node) (names : Visit) (depth : Nat) (known : Option Nat) (C : Nat)
+    (hC : (recC child (names ++ [child.name]) (depth + 1)).2 ≤ C) :
+    (checkChildC ctx recC child names depth known).2 ≤ pmNumEntries ctx.pm + C := by
+  have := (wb_checkEntriesC_cost ctx recC child (names ++ [child.name]) depth known C hC
+    (activeEntries ctx.pm (depth - ctx.rootDepth)) 0 {}).2
+  have := wb_activeEntries_length ctx.pm (depth - ctx.rootDepth)
+  unfold checkChildC
+  simp only []
+  omega
+
+def travKidsC (ctx : TCtx) (recC : RecC) (names : Visit) (depth : Nat) : List Node → List Visit → (List Visit × Int) × Nat
+  | [], acc => ((acc, depth), 0)
+  | k :: r, acc =>
+    match checkChildC ctx recC k names depth none with
+    | ((vs, some d), c) => ((acc ++ vs, d), c)
+    | ((vs, none), c) => ((travKidsC ctx recC names depth r (acc ++ vs)).1, (travKidsC ctx recC names depth r (acc ++ vs)).2 + c)
+
+theorem wb_travKidsC_fst (ctx : TCtx) (recC : RecC) (names : Visit) (depth : Nat) :
+    ∀ (kids : List Node) (acc : List Visit),
+      (travKidsC ctx recC names depth kids acc).1 = travKids ctx (projR recC) names depth kids acc := by
+  intro kids
+  induction kids with
+  | nil => intro acc; rfl
+  | cons k r ih =>
+    intro acc
+    simp only [travKidsC, travKids]
+    rw [← wb_checkChildC_fst]
+    split
+    · rename_i vs d c heq
+      simp only [heq]
+    · rename_i vs c heq
+      simp only [heq, ih]
+
+theorem wb_travKidsC_cost (ctx : TCtx) (recC : RecC) (names : Visit) (depth : Nat) (W : Node → Nat)
+    (hW : ∀ (k : Node) (n : Visit) (d : Nat), (recC k n d).2 ≤ W k) :
+    ∀ (kids : List Node) (acc : List Visit),
+      (travKidsC ctx recC names depth kids acc).2 ≤ (kids.map (fun k => pmNumEntries ctx.pm + W k)).sum := by
+  intro kids
+  induction kids with
+  | nil => intro acc; exact Nat.zero_le _
+  | cons k r ih =>
+    intro acc
+    have hc := wb_checkChildC_cost ctx recC k names depth none (W k) (hW _ _ _)
+    simp only [travKidsC, List.map_cons, List.sum_cons]
+    split
+    · rename_i vs d c heq
+      rw [heq] at hc
+      simp only [] at hc ⊢
+      omega
+    · rename_i vs c heq
+      rw [heq] at hc
+      have := ih (acc ++ vs)
+      simp only [] at hc ⊢
+      omega
+
+end Muscle.Reflector
+
+namespace Muscle.Reflector
+open Muscle
+
+/-- `wbPhi` with any weight -/
+def wbPhiG (g : Node → Nat) (kids : List Node) (did : List Bytes) : Nat :=
+  ((kids.filter (fun x => !did.contains x.name)).map g).sum
+
+theorem wb_phiG_mono (g : Node → Nat) (nm : Bytes) (did : List Bytes) : ∀ kids : List Node,
+    wbPhiG g kids (nm :: did) ≤ wbPhiG g kids did := by
+  intro kids
+  induction kids with
+  | nil => simp [wbPhiG]
+  | cons a r ih =>
+    simp only [wbPhiG, List.filter_cons, List.contains_cons] at ih ⊢
+    by_cases h1 : did.contains a.name = true
+    · simp only [h1, Bool.or_true, Bool.not_true, Bool.false_eq_true, if_false]
+      exact ih
+    · have h1' : did.contains a.name = false := by simpa using h1
+      by_cases h2 : (a.name == nm) = true
+      · simp only [h1', h2, Bool.or_false, Bool.not_true, Bool.false_eq_true, if_false, Bool.not_false, if_true,
+          List.map_cons, List.sum_cons]
+        omega
+      · have h2' : (a.name == nm) = false := by simpa using h2
+        simp only [h1', h2', Bool.or_false, Bool.not_false, if_true, List.map_cons, List.sum_cons]
+        omega
+
+theorem wb_phiG_drop (g : Node → Nat) (nm : Bytes) (did : List Bytes) (hd : did.contains nm = false) : ∀ (kids : List Node) (k : Node),
+    findKid nm kids = some k → wbPhiG g kids (nm :: did) + g k ≤ wbPhiG g kids did := by
+  intro kids
+  induction kids with
+  | nil => intro k h; simp [findKid] at h
+  | cons a r ih =>
+    intro k h
+    simp only [findKid] at h
+    by_cases ha : a.name = nm
+    · simp only [ha, if_true, Option.some.injEq] at h
+      subst h
+      have hm := wb_phiG_mono g nm did r
+      simp only [wbPhiG, List.filter_cons, List.contains_cons, ha, beq_self_eq_true, Bool.true_or, Bool.not_true,
+        Bool.false_eq_true, if_false, hd, Bool.not_false, if_true, List.map_cons, List.sum_cons] at hm ⊢
+      omega
+    · simp only [ha, if_false] at h
+      have := ih k h
+      have hb : (a.name == nm) = false := by simpa using ha
+      simp only [wbPhiG, List.filter_cons, List.contains_cons, hb, Bool.false_or] at this ⊢
+      split
+      · simp only [List.map_cons, List.sum_cons]; omega
+      · exact this
+
+theorem wb_phiG_nil (g : Node → Nat) (kids : List Node) : wbPhiG g kids [] = (kids.map g).sum := by
+  have : kids.filter (fun x => !([] : List Bytes).contains x.name) = kids := by
+    rw [List.filter_eq_self]; intro a _; simp
+  simp only [wbPhiG, this]
+
+def lookupElemsC (ctx : TCtx) (recC : RecC) (node : Node) (names : Visit) (depth : Nat) (idx : Nat) :
+    List Bytes → List Bytes → List Visit → (List Visit × List Bytes × Option Int) × Nat
+  | [], did, acc => ((acc, did, none), 0)
+  | el :: els, did, acc =>
+    match findKid (unescape el) node.kids with
+    | none => lookupElemsC ctx recC node names depth idx els did acc
+    | some k =>
+      if did.contains (unescape el) then lookupElemsC ctx recC node names depth idx els did acc else
+      match checkChildC ctx recC k names depth (some idx) with
+      | ((vs, some d), c) => ((acc ++ vs, did, some d), c)
+      | ((vs, none), c) =>
+        ((lookupElemsC ctx recC node names depth idx els (unescape el :: did) (acc ++ vs)).1,
+         (lookupElemsC ctx recC node names depth idx els (unescape el :: did) (acc ++ vs)).2 + c)
+
+theorem wb_lookupElemsC_fst (ctx : TCtx) (recC : RecC) (node : Node) (names : Visit) (depth : Nat) (idx : Nat) :
+    ∀ (els : List Bytes) (did : List Bytes) (acc : List Visit),
+      (lookupElemsC ctx recC node names depth idx els did acc).1 = lookupElems ctx (projR recC) node names depth idx els did acc := by
+  intro els
+  induction els with
+  | nil => intro did acc; rfl
+  | cons el els ih =>
+    intro did acc
+    cases hk : findKid (unescape el) node.kids with
+    | none =>
+      simp only [lookupElemsC, lookupElems, hk]
+      exact ih did acc
+    | some k =>
+      by_cases hdid : did.contains (unescape el) = true
+      · simp only [lookupElemsC, lookupElems, hk, hdid, if_true]
+        exact ih did acc
+      · have hdid' : did.contains (unescape el) = false := by simpa using hdid
+        simp only [lookupElemsC, lookupElems, hk, hdid', Bool.false_eq_true, if_false]
+        rw [← wb_checkChildC_fst]
+        split
+        · rename_i vs d c heq
+          simp only [heq]
+        · rename_i vs c heq
+          simp only [heq, ih]
+
+theorem wb_lookupElemsC_cost (ctx : TCtx) (recC : RecC) (node : Node) (names : Visit) (depth : Nat) (idx : Nat) (W : Node → Nat)
+    (hW : ∀ (k : Node) (n : Visit) (d : Nat), (recC k n d).2 ≤ W k) :
+    ∀ (els : List Bytes) (did : List Bytes) (acc : List Visit),
+      (lookupElemsC ctx recC node names depth idx els did acc).2 ≤ wbPhiG (fun k => pmNumEntries ctx.pm + W k) node.kids did ∧
+      ((lookupElemsC ctx recC node names depth idx els did acc).1.2.2 = none →
+        (lookupElemsC ctx recC node names depth idx els did acc).2 +
+          wbPhiG (fun k => pmNumEntries ctx.pm + W k) node.kids (lookupElemsC ctx recC node names depth idx els did acc).1.2.1
+            ≤ wbPhiG (fun k => pmNumEntries ctx.pm + W k) node.kids did) := by
+  intro els
+  induction els with
+  | nil => intro did acc; exact ⟨Nat.zero_le _, fun _ => by simp [lookupElemsC]⟩
+  | cons el els ih =>
+    intro did acc
+    simp only [lookupElemsC]
+    split
+    · exact ih did acc
+    · rename_i k hk
+      split
+      · exact ih did acc
+      · rename_i hdid
+        have hd : did.contains (unescape el) = false := by simpa using hdid
+        have hdrop := wb_phiG_drop (fun k => pmNumEntries ctx.pm + W k) (unescape el) did hd node.kids k hk
+        have hc := wb_checkChildC_cost ctx recC k names depth (some idx) (W k) (hW _ _ _)
+        split
+        · rename_i vs d c heq
+          rw [heq] at hc
+          simp only [] at hc hdrop ⊢
+          exact ⟨by omega, fun h => by simp at h⟩
+        · rename_i vs c heq
+          rw [heq] at hc
+          obtain ⟨i1, i2⟩ := ih (unescape el :: did) (acc ++ vs)
+          simp only [] at hc hdrop ⊢
+          refine ⟨by omega, fun h => ?_⟩
+          have := i2 h
+          omega
+
+def travLookupsC (ctx : TCtx) (recC : RecC) (node : Node) (names : Visit) (depth : Nat) :
+    List Entry → Nat → List Bytes → List Visit → (List Visit × Int) × Nat
+  | [], _, _, acc => ((acc, depth), 0)
+  | e :: es, idx, did, acc =>
+    match lookupElemsC ctx recC node names depth idx
+        (if isUVList ((e.clauses[depth - ctx.rootDepth]?).getD []) = true
+         then (splitCommas ((e.clauses[depth - ctx.rootDepth]?).getD [])).filter (fun x => !x.isEmpty)
+         else [(e.clauses[depth - ctx.rootDepth]?).getD []]) did acc with
+    | ((acc', _, some d), c) => ((acc', d), c)
+    | ((acc', did', none), c) =>
+      ((travLookupsC ctx recC node names depth es (idx + 1) did' acc').1,
+       (travLookupsC ctx recC node names depth es (idx + 1) did' acc').2 + c)
+
+theorem wb_travLookupsC_fst (ctx : TCtx) (recC : RecC) (node : Node) (names : Visit) (depth : Nat) :
+    ∀ (es : List Entry) (idx : Nat) (did : List Bytes) (acc : List Visit),
+      (travLookupsC ctx recC node names depth es idx did acc).1 = travLookups ctx (projR recC) node names depth es idx did acc := by
+  intro es
+  induction es with
+  | nil => intro idx did acc; rfl
+  | cons e es ih =>
+    intro idx did acc
+    simp only [travLookupsC, travLookups]
+    rw [← wb_lookupElemsC_fst]
+    split
+    · rename_i acc' x d c heq
+      simp only [heq]
+    · rename_i acc' did' c heq
+      simp only [heq, ih]
+
+theorem wb_travLookupsC_cost (ctx : TCtx) (recC : RecC) (node : Node) (names : Visit) (depth : Nat) (W : Node → Nat)
+    (hW : ∀ (k : Node) (n : Visit) (d : Nat), (recC k n d).2 ≤ W k) :
+    ∀ (es : List Entry) (idx : Nat) (did : List Bytes) (acc : List Visit),
+      (travLookupsC ctx recC node names depth es idx did acc).2 ≤ wbPhiG (fun k => pmNumEntries ctx.pm + W k) node.kids did := by
+  intro es
+  induction es with
+  | nil => intro idx did acc; exact Nat.zero_le _
+  | cons e es ih =>
+    intro idx did acc
+    simp only [travLookupsC]
+    obtain ⟨l1, l2⟩ := wb_lookupElemsC_cost ctx recC node names depth idx W hW
+      (if isUVList ((e.clauses[depth - ctx.rootDepth]?).getD []) = true
+         then (splitCommas ((e.clauses[depth - ctx.rootDepth]?).getD [])).filter (fun x => !x.isEmpty)
+         else [(e.clauses[depth - ctx.rootDepth]?).getD []]) did acc
+    split
+    · rename_i acc' x d c heq
+      rw [heq] at l1
+      exact l1
+    · rename_i acc' did' c heq
+      rw [heq] at l1 l2
+      have := l2 rfl
+      have := ih (idx + 1) did' acc'
+      simp only [] at *
+      omega
+
+def travLevelC (ctx : TCtx) (recC : RecC) (node : Node) (names : Visit) (depth : Nat) : (List Visit × Int) × Nat :=
+  if parsersHaveWildcards ctx.pm (depth - ctx.rootDepth) then travKidsC ctx recC names depth node.kids []
+  else travLookupsC ctx recC node names depth (activeEntries ctx.pm (depth - ctx.rootDepth)) 0 [] []
+
+theorem wb_travLevelC_fst (ctx : TCtx) (recC : RecC) (node : Node) (names : Visit) (depth : Nat) :
+    (travLevelC ctx recC node names depth).1 = travLevel ctx (projR recC) node names depth := by
+  unfold travLevelC travLevel
+  simp only []
+  split
+  · exact wb_travKidsC_fst ..
+  · exact wb_travLookupsC_fst ..
+
+theorem wb_travLevelC_cost (ctx : TCtx) (recC : RecC) (node : Node) (names : Visit) (depth : Nat) (W : Node → Nat)
+    (hW : ∀ (k : Node) (n : Visit) (d : Nat), (recC k n d).2 ≤ W k) :
+    (travLevelC ctx recC node names depth).2 ≤ (node.kids.map (fun k => pmNumEntries ctx.pm + W k)).sum := by
+  unfold travLevelC
+  split
+  · exact wb_travKidsC_cost ctx recC names depth W hW node.kids []
+  · rw [← wb_phiG_nil]
+    exact wb_travLookupsC_cost ctx recC node names depth W hW _ 0 [] []
+
+/-- `DoTraversalAux` with the number of pattern-entry tests -/
+def travAuxC (ctx : TCtx) : Nat → Node → Visit → Nat → (List Visit × Int) × Nat
+  | 0, _, _, depth => (([], depth), 0)
+  | fuel+1, node, names, depth => travLevelC ctx (travAuxC ctx fuel) node names depth
+
+theorem wb_travAuxC_fst (ctx : TCtx) : ∀ (fuel : Nat) (node : Node) (names : Visit) (depth : Nat),
+    (travAuxC ctx fuel node names depth).1 = travAux ctx fuel node names depth := by
+  intro fuel
+  induction fuel with
+  | zero => intro node names depth; rfl
+  | succ f ih =>
+    intro node names depth
+    simp only [travAuxC, travAux]
+    rw [wb_travLevelC_fst]
+    have : projR (travAuxC ctx f) = travAux ctx f := by
+      funext k n d
+      exact ih k n d
+    rw [this]
+
+theorem wb_sum_mul (c : Node → Nat) (E : Nat) : ∀ l : List Node,
+    (l.map (fun k => E + c k * E)).sum = (l.map (fun k => 1 + c k)).sum * E := by
+  intro l
+  induction l with
+  | nil => simp
+  | cons a r ih =>
+    simp only [List.map_cons, List.sum_cons, ih, Nat.add_mul, Nat.one_mul]
+
+theorem wb_travAuxC_cost (ctx : TCtx) : ∀ (fuel : Nat) (node : Node) (names : Visit) (depth : Nat),
+    (travAuxC ctx fuel node names depth).2 ≤ wbCnt fuel node * pmNumEntries ctx.pm := by
+  intro fuel
+  induction fuel with
+  | zero => intro node names depth; exact Nat.zero_le _
+  | succ f ih =>
+    intro node names depth
+    have := wb_travLevelC_cost ctx (travAuxC ctx f) node names depth (fun k => wbCnt f k * pmNumEntries ctx.pm)
+      (fun k n d => ih k n d)
+    rw [wb_sum_mul] at this
+    simpa only [travAuxC, wbCnt] using this
+
+end Muscle.Reflector
